@@ -328,7 +328,7 @@ Definition start_retry (q : seqdef) (timeout : N) : rstate :=
 
 Inductive cerr :=
 | EActiveMax | EActiveInUse | EUnknownToken | ENoCard | ENeedsPin | EUnexpectedPacket
-| EAborted (c : N) | EIncomplete | EUnknownCode (c : N) | EUnhandled (c : N) | EUnknownCardType | EParseTid | ETidTooLong.
+| EAborted (c : N) | EIncomplete | EUnknownCode (c : N) | EUnhandled (c : N) | EUnknownCardType | EParseTid | ETidTooLong | EWrongDevice.
 
 Inductive cres (A : Type) := ROk (a : A) | RErr (e : cerr).
 Arguments ROk {A} a.
@@ -398,7 +398,17 @@ Definition h_eod (ixc ixa : N) (_ : unit) (i : N) (v : value) : option (cres uni
 Definition get_system_info (cfg : config) (w : world) : cres value * world :=
   let q := seq_of "zvt::feig::sequences::GetSystemInfo" sysinfo_cmd in
   let ixc := variant_ix "zvt::feig::sequences::GetSystemInfoResponse" "CVendFunctionsEnhancedSystemInformationCompletion" in
-  consume LOOPFUEL cfg (start_retry q TIMEOUT) w tt (h_sysinfo ixc) (fun _ => RErr EIncomplete).
+  let '(r, w') := consume LOOPFUEL cfg (start_retry q TIMEOUT) w tt (h_sysinfo ixc) (fun _ => RErr EIncomplete) in
+  (* since the fix of F18: the serial number is compared here as well (as in connect); a terminal which reports another one now
+     is abandoned (TcpStream::reset) *)
+  match r with
+  | ROk si =>
+      match first_pos si with
+      | Some (VStr dev) => if list_eqb (map lower dev) (map lower (c_serial cfg)) then (ROk si, w') else (RErr EWrongDevice, drop_cur w')
+      | _ => (RErr EWrongDevice, drop_cur w')
+      end
+  | RErr e => (RErr e, w')
+  end.
 
 Definition digits_value (s : list N) : option N :=
   fold_left (fun acc c => match acc with
